@@ -16,16 +16,20 @@ def _p(pid, contracts, bounded, explanation, level="other", **kw):
     d = {"contracts": contracts, "bounded": bounded, "level": level, "explanation": explanation}
     d.update(kw); PROPS[pid] = d
 
-_p("C01", ["instances", "profiling", "shexing", "filtering", "c06_nt"], ["pipeline"],
+_p("C01", ["instances", "profiling", "shexing", "filtering", "c06_nt", "c18_state"], ["pipeline"],
    "Deductive: step contracts with whole-view frames for both counting passes (node->classes; (node,property,kind)->occurrences incl. shape kinds; "
    "(class,property,kind,cardinality)->#instances), frequency = n/N, every created statement carries its profile figure (loop invariants over the nested "
    "profile dictionaries), and the selection/tuning stage never writes a count (frame obligations; the original figure is kept as first comment before the "
    "probability is overwritten). The fold of the step contracts over the triple stream, the nested loops that enumerate (property, kind, cardinality) per "
    "instance, and the rendering of figures into text are covered by the " + MON)
-_p("C02", ["filtering", "shexing", "grouping", "plumbing_profiler", "c06_nt", "instances"], ["pipeline"],
+_p("C02", ["filtering", "shexing", "grouping", "plumbing_profiler", "c06_nt", "instances", "c18_state"], ["pipeline"],
    "Deductive: the threshold filter creates exactly one statement per candidate with frequency >= threshold (counting recurrence n_pass, boundary case kept) "
    "and nothing below it; MergeableConstraints keeps one slot per member (counting invariant) and merge_group yields one constraint for the property; "
-   "_decide_best returns a member of its group. The two O(n^2) grouping loops and empty-shape removal are covered by the " + MON)
+   "_decide_best returns a member of its group. The first O(n^2) grouping loop (_group_constraints_with_same_prop_and_obj) is verified with outer and inner "
+   "loop invariants: the visited set is characterised exactly and the result holds exactly one statement per (property, kind) key of the candidates, each a member "
+   "of the input. Of the second grouping loop the candidate search, the merge and their composition are verified (exactly the later non-literal candidates of the "
+   "property join the group, the representation invariant is kept, the constraint returned is a member or a new statement); its outer loop and empty-shape "
+   "removal are covered by the " + MON)
 _p("C03", ["shexing", "grouping", "c06_nt", "instances", "profiling"], ["schemas"],
    "Deductive: relaxation rule ('?' iff allow_opt and cardinality 1, else '*'; only below 100 %), exact-cardinality generalisation, '+' always offered and "
    "preferred under keep_less_specific unless useless, with the mode off no cardinality is written. Conformance of every instance (ShEx semantics, "
@@ -49,7 +53,9 @@ _p("C06", ["c06_nt"], ["readers"],
 _p("C07", ["c07_ttl", "c06_nt"], ["readers"],
    "Deductive: _find_next_blank (exclusive end of a token: next blank or END of line), _count_prior_backslashes (maximal run; its parity decides whether a quote "
    "is escaped), and the subject/predicate/object automaton (_assing_tmp_element_and_promote_state keeps the other two slots, rejects a term in any other state) "
-   "that carries ';' ',' and multi-line statements. Prefix/base expansion of a token is assumed here. Whole documents (3 layouts per statement set, prefix and "
+   "that carries ';' ',' and multi-line statements; _find_next_unescaped_quotes (the quote returned is preceded by an even, maximal run of backslashes; uses the "
+   "contract of _count_prior_backslashes) and _parse_cornered_element (<...> unchanged without @base and for absolute http(s) IRIs, base + reference for a plain "
+   "relative reference). Prefix expansion of a prefixed name is assumed here. Whole documents (3 layouts per statement set, prefix and "
    "base re-declaration, numeric/boolean shorthands) against rdflib: bounded (readers.py).")
 _p("C08", ["c08_channels", "c06_nt", "c17_min_iri"], ["channels"],
    "Deductive: the delivery dispatch (_decide_line_reader returns the reader class that matches exactly the one source given and hands it that source unchanged; "
